@@ -135,6 +135,15 @@ def scenarios(w: K.World, tier: str, R):
                                    isb=R.random() < 0.3 and api.module != 'pathlib', known=None, note=f'plain-list+excl T={T}')
                         yield dict(api=api, pats=[f'p{i}*' for i in range(T - m)] + [f'!x{i}' for i in range(m)], excl=None, flags=mod.NEGATE,
                                    limit=L, isb=False, known=None, note=f'plain-list+inline T={T}')
+            # NODIR appends a no-directory regex to the exclusions — it is not a pattern and must not be counted (added after seeded change
+            # C11j: Glob derived its running total from the stored lists, so with NODIR the exclude= pass started one too high)
+            if api.module in ('glob', 'pathlib') and L >= 2 and (L <= 33 or tier != 'quick'):
+                for T in (L - 1, L, L + 1):
+                    k1 = max(1, T - max(1, T // 2))
+                    yield dict(api=api, pats=[mk(k1, R.choice(styles), 'n')], excl=[mk(T - k1, 'set', 'm')] if T - k1 >= 1 else None,
+                               flags=BR | w.G.NODIR, limit=L, isb=False, known=None, note=f'NODIR+excl T={T}')
+                    yield dict(api=api, pats=[mk(k1, 'range', 'n')] + (['!' + mk(T - k1, 'set', 'm')] if T - k1 >= 1 else []), excl=None,
+                               flags=BR | w.G.NODIR | w.G.NEGATE, limit=L, isb=False, known=None, note=f'NODIR+inline T={T}')
             # duplicates: total L+1, distinct 1
             if api.name != 'wcmatch.WcMatch' and L <= 33:
                 yield dict(api=api, pats=['dup'] * (L + 1), excl=None, flags=BR, limit=L, isb=False, known=None, note='dups')
